@@ -34,6 +34,10 @@ type c10Scenario struct {
 	Triggers []string `json:"triggers"` // release@i, readtimeout@i, hbfail@i, stop
 	InFlight bool     `json:"inflight"` // a Session Establishment datagram travels together with the triggers (to association 0)
 	Reassoc  bool     `json:"reassoc"`  // afterwards a fresh Association Setup from the address of association 0
+	// MaxBound > 0 caps the deviation bound for this scenario ("any number of live associations": more associations than
+	// the completion channel buffers, explored under the canonical schedule and its one-deviation neighbours only)
+	MaxBound int  `json:"maxbound,omitempty"`
+	Canon    bool `json:"canon,omitempty"` // canonical schedule only
 }
 
 const c10N4 = "10.0.0.1"
@@ -82,7 +86,7 @@ func c10Est(c *vConn, cp uint64, n int) []byte {
 }
 
 func c10Run(sc c10Scenario, prefix []int, sigs []string) (*vsched.Sched, schedVerdict) {
-	s := vsched.New(prefix, 20000)
+	s := vsched.New(prefix, 20000+4000*sc.NAssoc)
 	s.PrefixSigs = sigs
 	s.ChargeFreeSwitch = true
 	s.MaxSlack = 20 * time.Second
@@ -373,6 +377,13 @@ func c10Scenarios() []c10Scenario {
 	add(2, 1, false, false, "release@1", "readtimeout@0")
 	add(2, 0, false, false, "stop")
 	add(2, 1, true, false, "release@1")
+	// "with any number of live associations": more than the node's completion channel buffers (100)
+	for _, n := range []int{101, 130} {
+		add(n, 0, false, false, "stop")
+		out[len(out)-1].Canon = true
+	}
+	add(101, 0, false, false, "release@0", "stop")
+	out[len(out)-1].Canon = true
 	return out
 }
 
@@ -417,7 +428,11 @@ func TestVerifC10(t *testing.T) {
 			continue
 		}
 		sc := sc
-		st := schedExplore(res, "c10", sc, sc.Name, bound, maxExec, func(p []int, sg []string) (*vsched.Sched, schedVerdict) { return c10Run(sc, p, sg) })
+		b := bound
+		if sc.Canon {
+			b = 0
+		}
+		st := schedExplore(res, "c10", sc, sc.Name, b, maxExec, func(p []int, sg []string) (*vsched.Sched, schedVerdict) { return c10Run(sc, p, sg) })
 		if st.Truncated && completed > bound-1 {
 			completed = bound - 1
 		}
